@@ -15,11 +15,11 @@ import types
 from hypothesis import strategies as st
 
 from pbt import dsl, findings
-from pbt.common import HarnessError, Violation, run_hypothesis
+from pbt.common import HarnessError, Violation, case_hash, run_hypothesis
 
 ID = 'C14'
 RULE = ('Hypothesis: DSL pattern tree x generated multi-line file content (pattern witnesses embedded in lines, '
-        'non-ASCII, \\n / \\r\\n / \\r line ends) written as UTF-8 to a fresh temp file x every public method that '
+        'non-ASCII, \\n / \\r\\n / \\r line ends) written as UTF-8 to a fresh temp file x instance state (plain / compile() / get_compiled_pattern kept or discarded) x every public method that '
         'has an is_path parameter (found by introspection) x window sizes 0..len+3 and invalid sizes. '
         'Non-trivial = the pattern has >= 1 match in the content and the content has >= 2 lines or a non-ASCII '
         'character. Distinct = distinct (tree, content, window) serialisations.')
@@ -80,8 +80,21 @@ def check_case(case, ctx):
         ctx.count('skipped:pattern_not_buildable')
         ctx.case(case, False)
         return
+    # the instance may be in "compiled" state: both matching paths must honour is_path
+    state = case.get('state', 'plain')
+    if state == 'compile':
+        p.compile()
+    elif state == 'gcp_keep':
+        p.get_compiled_pattern(discard_after=False)
+    elif state == 'gcp_discard':
+        p.get_compiled_pattern(discard_after=True)
+    ctx.count(f'state:{state}')
     content = make_content(case)
-    d = tempfile.mkdtemp(prefix='verif_c14_')
+    # deterministic path (a pure function of the case and the shard): a defect that matches against the *path string*
+    # must give the same answer every time the case is re-executed
+    d = os.path.join(tempfile.gettempdir(), f'verif_c14_{case_hash(case)}_{ctx.hash_seed}_{ctx.shard_index}')
+    shutil.rmtree(d, ignore_errors=True)
+    os.makedirs(d)
     try:
         path = os.path.join(d, 'src.txt')
         with open(path, 'wb') as f:
@@ -155,6 +168,7 @@ def strategy(spec, ctx):
         'repl': st.sampled_from(['', '-', '<>', 'é']),
         'count': st.integers(0, 3),
         'bad': st.sampled_from(sorted(BAD_SIZES)),
+        'state': st.sampled_from(['plain', 'plain', 'compile', 'gcp_keep', 'gcp_discard']),
     })
 
 
